@@ -40,33 +40,26 @@ Ltac pj_inj := let y := fresh in let a := fresh in let H := fresh in
   intros y a H; destruct y; cbn in H; try discriminate; inversion H; subst; try reflexivity;
   match goal with u : unit |- _ => destruct u; reflexivity end.
 
-Lemma kind_codec_ok k : wsound (kind_codec k) /\ wdec_ok (kind_codec k).
+Lemma kind_codec_sound k : wsound (kind_codec k).
 Proof.
   unfold kind_codec.
-  repeat match goal with |- context [if ?c then _ else _] => destruct c end;
-    (split; [first [apply wsound_fail | apply wsound_inj; [pj_inj|]]
-            | first [apply wdecok_fail | apply wdecok_inj; [reflexivity|]]]).
-  all: try (match goal with |- wsound ?w => first
-      [ exact (proj1 raw_payload_ok) | exact (proj1 connection_id_ok) | exact (proj1 sni_ok_)
-      | exact (proj1 empty_ok) | exact (proj1 alpn_offer_ok) | exact (proj1 alpn_selection_ok)
-      | exact (proj1 srtp_offer_ok) | exact (proj1 srtp_selection_ok) | exact (proj1 u16_list_ok)
-      | exact (proj1 renegotiation_info_ok) | exact (proj1 point_formats_ok)
-      | exact (proj1 cert_authorities_ok) | exact (proj1 cookie_ok_) | exact (proj1 max_early_data_ok)
-      | exact (proj1 client_key_share_ok) | exact (proj1 server_key_share_ok)
-      | exact (proj1 retry_key_share_ok) | exact (proj1 oid_filters_ok) | exact (proj1 offered_psks_ok)
-      | exact (proj1 selected_psk_ok) | exact (proj1 psk_modes_ok) | exact (proj1 offered_versions_ok)
-      | exact (proj1 selected_version_ok) ] end).
-  all: match goal with |- wdec_ok ?w => first
-      [ exact (proj1 (proj2 raw_payload_ok)) | exact (proj1 (proj2 connection_id_ok)) | exact (proj1 (proj2 sni_ok_))
-      | exact (proj1 (proj2 empty_ok)) | exact (proj1 (proj2 alpn_offer_ok)) | exact (proj1 (proj2 alpn_selection_ok))
-      | exact (proj1 (proj2 srtp_offer_ok)) | exact (proj1 (proj2 srtp_selection_ok)) | exact (proj1 (proj2 u16_list_ok))
-      | exact (proj1 (proj2 renegotiation_info_ok)) | exact (proj1 (proj2 point_formats_ok))
-      | exact (proj1 (proj2 cert_authorities_ok)) | exact (proj1 (proj2 cookie_ok_)) | exact (proj1 (proj2 max_early_data_ok))
-      | exact (proj1 (proj2 client_key_share_ok)) | exact (proj1 (proj2 server_key_share_ok))
-      | exact (proj1 (proj2 retry_key_share_ok)) | exact (proj1 (proj2 oid_filters_ok)) | exact (proj1 (proj2 offered_psks_ok))
-      | exact (proj1 (proj2 selected_psk_ok)) | exact (proj1 (proj2 psk_modes_ok)) | exact (proj1 (proj2 offered_versions_ok))
-      | exact (proj1 (proj2 selected_version_ok)) ] end.
+  repeat match goal with |- context [if ?c then _ else _] => destruct c end.
+  all: try apply wsound_fail.
+  all: apply wsound_inj; [pj_inj|].
+  all: first [ exact (proj1 raw_payload_ok) | exact (proj1 connection_id_ok) | exact (proj1 sni_ok_) | exact (proj1 empty_ok) | exact (proj1 alpn_offer_ok) | exact (proj1 alpn_selection_ok) | exact (proj1 srtp_offer_ok) | exact (proj1 srtp_selection_ok) | exact (proj1 u16_list_ok) | exact (proj1 renegotiation_info_ok) | exact (proj1 point_formats_ok) | exact (proj1 cert_authorities_ok) | exact (proj1 cookie_ok_) | exact (proj1 max_early_data_ok) | exact (proj1 client_key_share_ok) | exact (proj1 server_key_share_ok) | exact (proj1 retry_key_share_ok) | exact (proj1 oid_filters_ok) | exact (proj1 offered_psks_ok) | exact (proj1 selected_psk_ok) | exact (proj1 psk_modes_ok) | exact (proj1 offered_versions_ok) | exact (proj1 selected_version_ok) ].
 Qed.
+
+Lemma kind_codec_decok k : wdec_ok (kind_codec k).
+Proof.
+  unfold kind_codec.
+  repeat match goal with |- context [if ?c then _ else _] => destruct c end.
+  all: try apply wdecok_fail.
+  all: apply wdecok_inj; [intro a; first [reflexivity | destruct a; reflexivity]|].
+  all: first [ exact (proj1 (proj2 raw_payload_ok)) | exact (proj1 (proj2 connection_id_ok)) | exact (proj1 (proj2 sni_ok_)) | exact (proj1 (proj2 empty_ok)) | exact (proj1 (proj2 alpn_offer_ok)) | exact (proj1 (proj2 alpn_selection_ok)) | exact (proj1 (proj2 srtp_offer_ok)) | exact (proj1 (proj2 srtp_selection_ok)) | exact (proj1 (proj2 u16_list_ok)) | exact (proj1 (proj2 renegotiation_info_ok)) | exact (proj1 (proj2 point_formats_ok)) | exact (proj1 (proj2 cert_authorities_ok)) | exact (proj1 (proj2 cookie_ok_)) | exact (proj1 (proj2 max_early_data_ok)) | exact (proj1 (proj2 client_key_share_ok)) | exact (proj1 (proj2 server_key_share_ok)) | exact (proj1 (proj2 retry_key_share_ok)) | exact (proj1 (proj2 oid_filters_ok)) | exact (proj1 (proj2 offered_psks_ok)) | exact (proj1 (proj2 selected_psk_ok)) | exact (proj1 (proj2 psk_modes_ok)) | exact (proj1 (proj2 offered_versions_ok)) | exact (proj1 (proj2 selected_version_ok)) ].
+Qed.
+
+Lemma kind_codec_ok k : wsound (kind_codec k) /\ wdec_ok (kind_codec k).
+Proof. split; [apply kind_codec_sound|apply kind_codec_decok]. Qed.
 
 (* ------------------------------------------------------------------ one extension, a block *)
 
@@ -272,3 +265,131 @@ Proof.
 Qed.
 Theorem certificate13_trunc : wtrunc w_certificate13.
 Proof. unfold w_certificate13. apply wtrunc_exact, trunc_seq; [ext_auto|ext_auto|apply trunc_vec]. Qed.
+
+(* ------------------------------------------------------------------ ServerHello / HelloRetryRequest *)
+
+Lemma sound_sh_fixed : sound c_sh_fixed.
+Proof.
+  unfold c_sh_fixed. repeat apply sound_seq; try apply sound_version; try apply sound_random; ext_auto.
+Qed.
+Lemma decok_sh_fixed : dec_ok c_sh_fixed.
+Proof.
+  unfold c_sh_fixed. repeat apply decok_seq; try apply decok_version; try apply decok_random; ext_auto.
+Qed.
+
+(* the context-free encoder (Go: extension.MarshalList) agrees with the context-indexed codec *)
+Lemma ext_enc_agrees ctx e : wf (c_ext ctx) e = true -> enc (c_ext ctx) e = ext_enc e.
+Proof.
+  destruct e as [ty [k p]]. unfold c_ext, c_bind, ext_enc, ev_kind, ev_val, ev_type; cbn [wf enc fst snd].
+  intro W. apply andb_prop in W. destruct W as [_ W].
+  destruct (ext_kind ctx ty) as [|k']; [discriminate W|].
+  unfold c_map, c_vec in *; cbn [wf enc fst snd] in *.
+  apply andb_prop in W. destruct W as [Wk _]. apply N.eqb_eq in Wk. subst k'.
+  unfold c_u; cbn [enc]. change (256 ^ N.of_nat 2) with 65536.
+  destruct (wenc (kind_codec k) p) as [pe|]; [|reflexivity].
+  destruct (len pe <? 65536); reflexivity.
+Qed.
+
+Lemma exts_enc_agrees ctx l : forallb (wf (c_ext ctx)) l = true -> list_enc (c_ext ctx) l = exts_enc l.
+Proof.
+  induction l as [|e l IH]; cbn [forallb list_enc exts_enc]; intro H; [reflexivity|].
+  apply andb_prop in H. destruct H as [He Hl]. rewrite (ext_enc_agrees ctx e He), (IH Hl). reflexivity.
+Qed.
+
+Lemma block_enc_agrees ctx l : wwf (w_ext_block ctx) l = true -> wenc (w_ext_block ctx) l = block_enc l.
+Proof.
+  unfold w_ext_block, w_exact, c_ext_block, c_vec, w_guard, block_enc; cbn [wwf wenc wf enc w_list].
+  intro W. apply andb_prop in W. destruct W as [W _]. apply andb_prop in W. destruct W as [W _].
+  apply andb_prop in W. destruct W as [W _]. rewrite (exts_enc_agrees ctx l W).
+  change (256 ^ N.of_nat 2) with 65536. reflexivity.
+Qed.
+
+(* a typed extension and a raw extension are framed identically *)
+Lemma ext_dec_raw ctx x e r : dec (c_ext ctx) x = Some (e, r) ->
+  exists d, dec c_raw_ext x = Some ((ev_type e, d), r).
+Proof.
+  unfold c_ext, c_raw_ext, c_seq, c_bind; cbn [dec].
+  destruct (dec (c_u 2) x) as [[ty r1]|]; [|discriminate].
+  destruct (ext_kind ctx ty) as [|k]; [discriminate|].
+  unfold c_map, c_opaque, c_vec, w_rest; cbn [dec wdec].
+  destruct (length r1 <? 2)%nat; [discriminate|].
+  destruct (len (skipn 2 r1) <? be_dec (firstn 2 r1)); [discriminate|].
+  destruct (wdec (kind_codec k) (take (be_dec (firstn 2 r1)) (skipn 2 r1))) as [p|]; [|discriminate].
+  intro H. inversion H; subst e r; clear H. eexists. unfold ev_type; cbn [fst]. reflexivity.
+Qed.
+
+Lemma list_dec_typed_raw ctx : forall fuel x l, list_dec (c_ext ctx) fuel x = Some l ->
+  exists raws, list_dec c_raw_ext fuel x = Some raws /\ map fst raws = map ev_type l.
+Proof.
+  induction fuel as [|fuel IH]; intros x l H.
+  - destruct x; cbn [list_dec] in *; [|discriminate]. inversion H; subst. exists []. split; reflexivity.
+  - destruct x as [|y x0].
+    { cbn [list_dec] in *. inversion H; subst. exists []. split; reflexivity. }
+    cbn [list_dec] in *. remember (y :: x0) as x eqn:Hx.
+    destruct (dec (c_ext ctx) x) as [[e r]|] eqn:E; [|discriminate].
+    destruct (ext_dec_raw ctx x e r E) as [d Er]. rewrite Er.
+    destruct (length r <? length x)%nat; [|discriminate].
+    destruct (list_dec (c_ext ctx) fuel r) as [l'|] eqn:El; [|discriminate].
+    inversion H; subst l; clear H. destruct (IH r l' El) as [raws [Rr Rt]]. rewrite Rr.
+    exists ((ev_type e, d) :: raws). split; [reflexivity|]. cbn [map fst]. rewrite Rt. reflexivity.
+Qed.
+
+(* decoding a block typed or raw yields the same extension types in the same order *)
+Lemma typed_vs_raw ctx b l : wdec (w_ext_block ctx) b = Some l ->
+  exists raws, wdec w_ext_list b = Some raws /\ map fst raws = map ev_type l.
+Proof.
+  unfold w_ext_block, w_ext_list, w_exact, c_ext_block, c_vec, w_guard; cbn [wdec dec w_list].
+  destruct (length b <? 2)%nat; [discriminate|].
+  destruct (len (skipn 2 b) <? be_dec (firstn 2 b)); [discriminate|].
+  set (x := take (be_dec (firstn 2 b)) (skipn 2 b)).
+  destruct (list_dec (c_ext ctx) (length x) x) as [l0|] eqn:E; [|discriminate].
+  destruct (block_ok ctx l0); [|discriminate].
+  destruct (drop (be_dec (firstn 2 b)) (skipn 2 b)) as [|z rest]; [|discriminate].
+  intro H. inversion H; subst l0; clear H.
+  destruct (list_dec_typed_raw ctx _ _ _ E) as [raws [Rr Rt]]. rewrite Rr.
+  exists raws. split; [reflexivity|exact Rt].
+Qed.
+
+Theorem server_hello_roundtrip : wsound w_server_hello.
+Proof.
+  intros [f l] W. cbn [wwf wenc wdec w_server_hello] in *. unfold sh_wf in W. cbn [fst snd] in W.
+  apply andb_prop in W. destruct W as [Wf Wl].
+  set (ctx := sh_ctx (fst (snd f)) (map ev_type l)) in *.
+  destruct (proj1 (ext_block_ok ctx) l Wl) as [eb [Eb Db]].
+  rewrite (block_enc_agrees ctx l Wl) in Eb.
+  destruct (sound_sh_fixed f eb Wf) as [a [Ea Da]].
+  unfold sh_enc. cbn [fst snd]. rewrite Ea, Eb. exists (a ++ eb). split; [reflexivity|].
+  unfold sh_dec. rewrite Da. unfold sh_ext_dec.
+  destruct eb as [|z eb0].
+  { unfold w_ext_block, w_exact, c_ext_block, c_vec in Db; cbn [wdec dec length Nat.ltb Nat.leb] in Db. discriminate. }
+  destruct (typed_vs_raw ctx _ l Db) as [raws [Rr Rt]]. rewrite Rr, Rt. fold ctx. rewrite Db. reflexivity.
+Qed.
+
+(* every accepted ServerHello is in the domain, hence re-encodes to a fixed point *)
+Lemma server_hello_decwf : wdec_wf w_server_hello.
+Proof.
+  intros b [f l] Hb H. cbn [wwf wdec w_server_hello] in *. unfold sh_dec in H.
+  destruct (dec c_sh_fixed b) as [[f0 rest]|] eqn:Ef; [|discriminate].
+  destruct (sh_ext_dec (fst (snd f0)) rest) as [l0|] eqn:El; [|discriminate].
+  inversion H; subst f0 l0; clear H.
+  destruct (decok_sh_fixed _ _ _ Hb Ef) as [Wf [ef [p [_ [Hbp _]]]]].
+  assert (Hrest : bytes_ok rest = true) by (rewrite Hbp in Hb; apply (bytes_ok_app_inv _ _ Hb)).
+  unfold sh_wf. cbn [fst snd]. rewrite Wf. cbn [andb]. unfold sh_ext_dec in El.
+  destruct rest as [|z rest0].
+  - destruct (block_ok (sh_ctx (fst (snd f)) []) []) eqn:Hok; [|discriminate]. inversion El; subst l.
+    cbn [map]. unfold w_ext_block, w_exact, c_ext_block, c_vec, w_guard; cbn [wwf wf wenc w_list forallb list_enc].
+    rewrite Hok. reflexivity.
+  - destruct (wdec w_ext_list (z :: rest0)) as [raws|] eqn:Er; [|discriminate].
+    destruct (typed_vs_raw _ _ _ El) as [raws' [Er' Rt]]. rewrite Er in Er'. inversion Er'; subst raws'.
+    rewrite <- Rt. exact (proj1 (proj1 (proj2 (ext_block_ok _)) _ _ Hrest El)).
+Qed.
+
+Theorem server_hello_fixpoint : wfixpoint w_server_hello.
+Proof. apply wfixpoint_of_wf; [apply server_hello_roundtrip|apply server_hello_decwf]. Qed.
+
+(* Marshal always writes an extension block; an input without one is accepted and re-encoded with
+   an empty block (canonical form differs from the input, and is a fixed point) *)
+Example server_hello_absent_block_canonicalised :
+  let b := [254; 253] ++ repeat 7 32 ++ [0; 192; 43; 0] in
+  exists x, sh_dec b = Some x /\ sh_enc x = Some (b ++ [0; 0]) /\ sh_dec (b ++ [0; 0]) = Some x.
+Proof. eexists. split; [vm_compute; reflexivity|]. split; vm_compute; reflexivity. Qed.
